@@ -291,7 +291,7 @@ func calculateAmountCostLen(posting *ast.Posting, commodityFormats map[string]Nu
 	length := 0
 
 	if posting.Amount.Commodity.Position == ast.CommodityLeft {
-		length += utf8.RuneCountInString(commodityText(posting.Amount.Commodity.Symbol))
+		length += utf8.RuneCountInString(leftCommodityText(posting.Amount.Commodity.Symbol))
 	}
 
 	length += utf8.RuneCountInString(formatAmountQuantity(posting.Amount, commodityFormats))
@@ -307,7 +307,7 @@ func calculateAmountCostLen(posting *ast.Posting, commodityFormats map[string]Nu
 			length += 3 // " @ "
 		}
 		if posting.Cost.Amount.Commodity.Position == ast.CommodityLeft {
-			length += utf8.RuneCountInString(commodityText(posting.Cost.Amount.Commodity.Symbol))
+			length += utf8.RuneCountInString(leftCommodityText(posting.Cost.Amount.Commodity.Symbol))
 		}
 		length += utf8.RuneCountInString(formatAmountQuantity(&posting.Cost.Amount, commodityFormats))
 		if posting.Cost.Amount.Commodity.Position == ast.CommodityRight {
@@ -411,6 +411,7 @@ func writeAmountWithSign(sb *strings.Builder, amount *ast.Amount, commodityForma
 
 	symbol := commodityText(amount.Commodity.Symbol)
 	if amount.Commodity.Position == ast.CommodityLeft {
+		symbol = leftCommodityText(amount.Commodity.Symbol)
 		if amount.SignBeforeCommodity && len(qty) > 0 && (qty[0] == '-' || qty[0] == '+') {
 			sb.WriteByte(qty[0])
 			sb.WriteString(symbol)
@@ -433,6 +434,18 @@ func writeAmountWithSign(sb *strings.Builder, amount *ast.Amount, commodityForma
 func commodityText(symbol string) string {
 	for _, r := range symbol {
 		if !unicode.IsLetter(r) && !unicode.Is(unicode.Sc, r) {
+			return "\"" + symbol + "\""
+		}
+	}
+	return symbol
+}
+
+// leftCommodityText is the symbol as written in front of a number without a blank: only
+// currency signs and upper-case codes are recognised there ("$5", "USD5"); any other word
+// ("green") would run into the number and has to keep its quotes.
+func leftCommodityText(symbol string) string {
+	for _, r := range symbol {
+		if !(r >= 'A' && r <= 'Z') && !unicode.Is(unicode.Sc, r) {
 			return "\"" + symbol + "\""
 		}
 	}
